@@ -41,6 +41,16 @@ UNIT = dict(
     ('R9', 'Fiber::pause_unwind', dict(
        pat=r'let temp: Vec<\*const u8> = self\s*\.frames\(\)\s*\.iter\(\)\s*\.rev\(\)\s*\.take\(([^)]*)\)\s*\.skip\(([^)]*)\)\s*\.map\(\|frame\| frame\.ip\(\)\)\s*\.collect\(\);\s*self\.backtrace_ips\.extend\(context\.gc\(\), context, &temp\);',
        rep=r'self.verif_collect_ips_take_skip(\1, \2);', regex=True, optional=True)),
+    # the same chain with only one adaptor, or none: skip(0) / take(usize::MAX) are the identity adaptors
+    ('R9', 'Fiber::pause_unwind', dict(
+       pat=r'let temp: Vec<\*const u8> = self\s*\.frames\(\)\s*\.iter\(\)\s*\.rev\(\)\s*\.take\(([^)]*)\)\s*\.map\(\|frame\| frame\.ip\(\)\)\s*\.collect\(\);\s*self\.backtrace_ips\.extend\(context\.gc\(\), context, &temp\);',
+       rep=r'self.verif_collect_ips_skip_take(0, \1);', regex=True, optional=True)),
+    ('R9', 'Fiber::pause_unwind', dict(
+       pat=r'let temp: Vec<\*const u8> = self\s*\.frames\(\)\s*\.iter\(\)\s*\.rev\(\)\s*\.skip\(([^)]*)\)\s*\.map\(\|frame\| frame\.ip\(\)\)\s*\.collect\(\);\s*self\.backtrace_ips\.extend\(context\.gc\(\), context, &temp\);',
+       rep=r'self.verif_collect_ips_skip_take(\1, usize::MAX);', regex=True, optional=True)),
+    ('R9', 'Fiber::pause_unwind', dict(
+       pat=r'let temp: Vec<\*const u8> = self\s*\.frames\(\)\s*\.iter\(\)\s*\.rev\(\)\s*\.map\(\|frame\| frame\.ip\(\)\)\s*\.collect\(\);\s*self\.backtrace_ips\.extend\(context\.gc\(\), context, &temp\);',
+       rep=r'self.verif_collect_ips_skip_take(0, usize::MAX);', regex=True, optional=True)),
     ('R9', 'Fiber::finish_unwind', dict(pat='let backtrace = self.error_backtrace(&handler);', rep='let backtrace = self.verif_error_backtrace(&handler);', count=1)),
     ('R4', 'Fiber::exception_handler', dict(pat='self.exception_handlers.last().copied()', rep='match self.exception_handlers.last() { Some(verif_h) => Some(*verif_h), None => None }', count=1)),
     ('R3', 'Fiber::pop_exception_handler', dict(pat=r'assert!\(\s*self\.exception_handlers\.pop\(\)\.is_some\(\),\s*"[^"]*"\s*\);', rep='let verif_p = self.exception_handlers.pop(); assert!(verif_p.is_some());', regex=True, count=1)),
